@@ -365,6 +365,26 @@ func (x *mctx) nativeMutants() []Mut {
 			m.Sigs[i].KeyType, m.Sigs[i].Key = keyTypeName(f), append([]byte{}, f.Pub.Data...)
 			add("key-other"+sfx, m)
 		}
+		{
+			// the same key in another container: tendermint's amino type prefix (ed25519 1624de6420, secp256k1 eb5ae98721)
+			// or five arbitrary bytes in front, or bytes behind: not the signer's key bytes any more
+			m := o.clone()
+			pre := [][]byte{{0x16, 0x24, 0xde, 0x64, 0x20}, {0xeb, 0x5a, 0xe9, 0x87, 0x21}, {1, 2, 3, 4, 5}, {0, 0, 0, 0, 0}}[c.Intn(4, "keypre")]
+			m.Sigs[i].Key = append(append([]byte{}, pre...), m.Sigs[i].Key...)
+			add("key-prefixed-5-bytes"+sfx, m)
+		}
+		{
+			m := o.clone()
+			m.Sigs[i].Key = append(append([]byte{}, m.Sigs[i].Key...), make([]byte, 1+c.Intn(5, "keysuf"))...)
+			add("key-zero-bytes-appended"+sfx, m)
+		}
+		{
+			m := o.clone()
+			if len(m.Sigs[i].Key) > 1 {
+				m.Sigs[i].Key = append([]byte{}, m.Sigs[i].Key[:len(m.Sigs[i].Key)-1]...)
+			}
+			add("key-truncated"+sfx, m)
+		}
 		for _, tag := range []string{"ed25519", "secp256k1", "btcecsecp", "ethsecp", "nosuchalgo", ""} {
 			if tag == o.Sigs[i].KeyType {
 				continue
